@@ -128,11 +128,13 @@ impl<'buf, 'fds> Unmarshal<'buf, 'fds> for &'buf [u8] {
     }
 }
 
-unsafe fn unmarshal_slice<'a, 'buf, 'fds, E>(
-    ctx: &'a mut UnmarshalContext<'fds, 'buf>,
-) -> unmarshal::UnmarshalResult<&'a [E]>
+/// Reads the raw bytes of an array whose element type `E` returned true from `Signature::valid_slice`.
+/// Returns the bytes of all elements. They are not necessarily aligned for `E` in memory.
+fn unmarshal_slice_bytes<'buf, 'fds, E>(
+    ctx: &mut UnmarshalContext<'fds, 'buf>,
+) -> unmarshal::UnmarshalResult<&'buf [u8]>
 where
-    E: Unmarshal<'buf, 'fds>, //+ 'fds + 'buf
+    E: Unmarshal<'buf, 'fds>,
 {
     let bytes_in_array = ctx.read_u32()? as usize;
     let alignment = E::alignment();
@@ -142,25 +144,39 @@ where
     if bytes_in_array % alignment != 0 {
         return Err(UnmarshalError::NotAllBytesUsed);
     }
-    let content_slice = ctx.read_raw(bytes_in_array)?;
+    ctx.read_raw(bytes_in_array)
+}
 
-    // cast the slice from u8 to the target type
-    let elem_cnt = bytes_in_array / alignment;
-    let ptr = content_slice.as_ptr().cast::<E>();
-    let slice = std::slice::from_raw_parts(ptr, elem_cnt);
-
-    Ok(slice)
+/// Copies the elements out of the bytes returned by `unmarshal_slice_bytes`
+///
+/// # Safety
+/// `E::valid_slice` must have returned true, i.e. every bit pattern is a valid `E`
+/// and `size_of::<E>() == E::alignment()`
+unsafe fn copy_slice_bytes<E: Signature>(src: &[u8]) -> Vec<E> {
+    debug_assert_eq!(E::alignment(), std::mem::size_of::<E>());
+    let elem_cnt = src.len() / E::alignment();
+    let mut ret: Vec<E> = Vec::with_capacity(elem_cnt);
+    // copy bytewise, src does not need to be aligned for E
+    std::ptr::copy_nonoverlapping(src.as_ptr(), ret.as_mut_ptr().cast::<u8>(), src.len());
+    ret.set_len(elem_cnt);
+    ret
 }
 
 impl<'buf, 'fds, E: Unmarshal<'buf, 'fds> + Clone> Unmarshal<'buf, 'fds> for Cow<'buf, [E]> {
     fn unmarshal(ctx: &mut UnmarshalContext<'fds, 'buf>) -> unmarshal::UnmarshalResult<Self> {
         unsafe {
             if E::valid_slice(ctx.byteorder) {
-                let src: &[E] = unmarshal_slice(ctx)?;
-                // SAFETY: One of requirements is for valid_slice it is only valid for 'buf
-                // Thus this lifetime cast is always valid
-                let l_expand: &'buf [E] = std::mem::transmute(src);
-                return Ok(Cow::Borrowed(l_expand));
+                let src: &'buf [u8] = unmarshal_slice_bytes::<E>(ctx)?;
+                let ptr = src.as_ptr().cast::<E>();
+                if ptr.align_offset(std::mem::align_of::<E>()) == 0 {
+                    // SAFETY: the pointer is aligned, valid_slice guarantees that all bit patterns are valid
+                    // and that the length is a whole number of elements has been checked.
+                    let elem_cnt = src.len() / E::alignment();
+                    return Ok(Cow::Borrowed(std::slice::from_raw_parts(ptr, elem_cnt)));
+                } else {
+                    // The buffer is not aligned for E in memory, the elements need to be copied
+                    return Ok(Cow::Owned(copy_slice_bytes::<E>(src)));
+                }
             }
         }
         Vec::unmarshal(ctx).map(Cow::Owned)
@@ -171,12 +187,8 @@ impl<'buf, 'fds, E: Unmarshal<'buf, 'fds>> Unmarshal<'buf, 'fds> for Vec<E> {
     fn unmarshal(ctx: &mut UnmarshalContext<'fds, 'buf>) -> unmarshal::UnmarshalResult<Self> {
         unsafe {
             if E::valid_slice(ctx.byteorder) {
-                let src = unmarshal_slice::<E>(ctx)?;
-                let mut ret = Vec::with_capacity(src.len());
-                let dst = ret.as_mut_ptr();
-                std::ptr::copy_nonoverlapping(src.as_ptr(), dst, src.len());
-                ret.set_len(src.len());
-                return Ok(ret);
+                let src = unmarshal_slice_bytes::<E>(ctx)?;
+                return Ok(copy_slice_bytes::<E>(src));
             }
         }
         ctx.align_to(4)?;
